@@ -1,5 +1,5 @@
 (* C15 -- Observe accounting: sequence strictly increases; eviction exactly past limit. *)
-From CoapV Require Import Base Header Packet UintOpt Observe Suite14 proofs.P14 proofs.P15b.
+From CoapV Require Import Base Header Packet UintOpt Observe Suite14 proofs.P14 proofs.P14b proofs.P15b proofs.P15c.
 
 (* a round on an observed resource: sequence + 1; every observer gets the message id and, when
    confirmable, one more unacknowledged notification; exactly those whose count exceeds the limit are dropped.
@@ -65,6 +65,16 @@ Theorem C15_notification : forall m tok seq pl conf, len tok <= 8 -> seq < U32 -
     Ok (mkPacket (mkHeader (64 + (if conf then 0 else 16) + len tok) (Response Content) m) tok [(6, [be_min seq])] pl).
 Proof. exact notification_spec. Qed.
 Print Assumptions C15_notification.
+
+(* the model passes both oracles on every input: suite 150 (create_notification against the literal expected packet),
+   and suite 140 (histories against the relational reference, in which a row's count is by construction the number of
+   confirmable rounds since its registration or last matching acknowledgement) outside the known-finding class *)
+Theorem C15_model_passes_oracle150 : forall s, verdict150 s (run150 s) = true.
+Proof. exact model_passes_oracle150. Qed.
+Print Assumptions C15_model_passes_oracle150.
+Theorem C15_model_passes_oracle140 : forall s, known140 s = 0 -> verdict140 s (run140 s) = true.
+Proof. exact model_passes_oracle140. Qed.
+Print Assumptions C15_model_passes_oracle140.
 
 Example C15_example :
   match run_ops subject_default [SetLimit 1; Register 1 [97] [1]; Changed [97] 5 true; Changed [97] 6 true; Ack 1 5; Changed [97] 7 true] with
